@@ -45,14 +45,14 @@ type varInfo struct {
 
 // Profile selects the emphasis of generated programs.
 type Profile struct {
-	Name      string
-	MaxStmts  int
-	MaxEst    int
-	Allow     map[string]bool // features that may be enabled
-	Weights   map[string]int
-	YieldFix  int  // >=0: every yield/resume/body uses exactly this many values
-	Epilogue  bool
-	Disabled  map[string]bool
+	Name     string
+	MaxStmts int
+	MaxEst   int
+	Allow    map[string]bool // features that may be enabled
+	Weights  map[string]int
+	YieldFix int // >=0: every yield/resume/body uses exactly this many values
+	Epilogue bool
+	Disabled map[string]bool
 }
 
 var allFeatures = []string{"closure", "loop", "goto", "pcall", "xpcall", "error", "rtfault", "coroutine", "wrap", "meta", "sort", "gsub", "fenv", "hostcall", "hostpcall", "clobber", "multiassign", "tailcall", "shadow", "factory", "level2", "nested_yield", "tail_yield"}
@@ -121,15 +121,15 @@ type gen struct {
 	depth   int
 	coSeq   int
 	ctxSeq  int
-	nloc    int   // live locals of the function being generated (approximate upper bound)
+	nloc    int // live locals of the function being generated (approximate upper bound)
 	locSave []int
 	globals []*varInfo
 }
 
-func (g *gen) ch(n int) int      { return g.t.Choose(n) }
+func (g *gen) ch(n int) int         { return g.t.Choose(n) }
 func (g *gen) chance(a, b int) bool { return g.t.Choose(b) >= b-a }
-func (g *gen) feat(f string) bool { return g.on[f] }
-func (g *gen) use(f string)       { g.prog.Features[f]++ }
+func (g *gen) feat(f string) bool   { return g.on[f] }
+func (g *gen) use(f string)         { g.prog.Features[f]++ }
 
 func (g *gen) fresh(prefix string) string {
 	g.n++
@@ -623,13 +623,27 @@ func (g *gen) sAssign(fc *fctx) []Stmt {
 			if a != nil && b != nil && a.name != b.name {
 				g.use("multiassign")
 				g.prog.MultiAssign = true
-				return []Stmt{&Assign{Targets: []Expr{Var{a.name}, Var{b.name}}, Exprs: []Expr{g.numExpr(1), g.strExpr(1)}}}
+				return []Stmt{&Assign{Targets: []Expr{Var{a.name}, Var{b.name}}, Exprs: []Expr{g.numExpr(1), Str{strConsts[g.ch(len(strConsts))]}}}}
 			}
 		}
 	}
 	k := []vkind{kNum, kNum, kStr, kBool}[g.ch(4)]
 	if v := g.assignable(k); v != nil {
-		return []Stmt{&Assign{Targets: []Expr{Var{v.name}}, Exprs: []Expr{g.exprOf(k, 2)}}}
+		e := g.exprOf(k, 2)
+		if k == kStr {
+			// assignments to string variables never concatenate variables: repeated
+			// execution (loops, repeated calls) must not grow a string exponentially
+			if g.ch(2) == 0 {
+				if o := g.pick(kStr); o != nil {
+					e = Var{o.name}
+				} else {
+					e = Str{"k"}
+				}
+			} else {
+				e = Bin{"..", Str{strConsts[g.ch(len(strConsts))]}, Num{float64(g.ch(20))}}
+			}
+		}
+		return []Stmt{&Assign{Targets: []Expr{Var{v.name}}, Exprs: []Expr{e}}}
 	}
 	return g.sDecl(fc)
 }
@@ -831,7 +845,6 @@ func (g *gen) sGoto(fc *fctx) []Stmt {
 		return []Stmt{&Do{Body: out}}
 	}
 }
-
 
 // countLocals: locals declared directly by these statements (not in nested blocks or functions).
 func countLocals(ss []Stmt) int {
